@@ -25,6 +25,7 @@
 import EG.Generated.StyledSrc
 import EG.Props.C16.Generated
 import EG.Props.C06.Rectangle
+import EG.Model.PrimStyle
 namespace EG.C06.Src
 open EG EG.Rect EG.StyledRect EG.RectSrcPrelude EG.StyledSrcPrelude EG.Generated EG.C16.Src
 
@@ -282,5 +283,40 @@ theorem src_styled_rect_exact (s : Style) (r : Rect) (h : Guard s r) (hu : IsU32
 example : Guard ⟨some 7, some 9, 3, .center⟩ ⟨⟨-2, -1⟩, ⟨4, 5⟩⟩ ∧ IsU32 (⟨⟨-2, -1⟩, ⟨4, 5⟩⟩ : Rect).size := by decide
 example : StyledSrc.Rectangle_StyledDrawable_draw_styled ⟨⟨0, 0⟩, ⟨3, 4⟩⟩ (ofStyle ⟨some 7, some 9, 1, .inside⟩) [] =
     drawCalls ⟨some 7, some 9, 1, .inside⟩ ⟨⟨0, 0⟩, ⟨3, 4⟩⟩ := by decide
+
+/-! ### the second hand model of the style, `EG.PrimStyle` (circle, ellipse, rounded rectangle, sector) -/
+
+/-- The Rust style as `EG.PrimStyle` (the `stroke_style` field is forgotten). -/
+def toPrimStyle (p : StyledSrc.PrimitiveStyle) : PrimStyle :=
+  ⟨p.fill_color, p.stroke_color, p.stroke_width, alignOf p.stroke_alignment⟩
+
+theorem prim_outside_stroke_width_src_eq_model (p : StyledSrc.PrimitiveStyle) :
+    StyledSrc.PrimitiveStyle_outside_stroke_width p = (toPrimStyle p).outsideStrokeWidth := by
+  obtain ⟨f, st, w, a, ss⟩ := p
+  cases a <;> rfl
+
+theorem prim_inside_stroke_width_src_eq_model (p : StyledSrc.PrimitiveStyle) :
+    StyledSrc.PrimitiveStyle_inside_stroke_width p = (toPrimStyle p).insideStrokeWidth := by
+  obtain ⟨f, st, w, a, ss⟩ := p
+  cases a <;> rfl
+
+theorem prim_is_transparent_src_eq_model (p : StyledSrc.PrimitiveStyle) :
+    StyledSrc.PrimitiveStyle_is_transparent p = (toPrimStyle p).isTransparent := by
+  rw [is_transparent_src_eq_model]; rfl
+
+theorem prim_effective_stroke_color_src_eq_model (p : StyledSrc.PrimitiveStyle) :
+    StyledSrc.PrimitiveStyle_effective_stroke_color p = (toPrimStyle p).effectiveStrokeColor := by
+  obtain ⟨f, st, w, a, ss⟩ := p
+  cases st <;> simp [StyledSrc.PrimitiveStyle_effective_stroke_color, PrimStyle.effectiveStrokeColor, toPrimStyle, option_filter,
+    u32_gt, StyledSrc.PrimitiveStyle_stroke_width, StyledSrc.PrimitiveStyle_stroke_color]
+
+/-- The offsets every other styled closed shape hands to its own `OffsetOutline::offset` (the generated `stroke_area` / `fill_area`
+bodies with `P` left open): `outside_stroke_width().saturating_as()` and, for a solid stroke,
+`-inside_stroke_width().saturating_as::<i32>()`. -/
+theorem prim_offsets_src_eq_model (p : StyledSrc.PrimitiveStyle) :
+    u32_saturating_as_i32 (StyledSrc.PrimitiveStyle_outside_stroke_width p) = (toPrimStyle p).strokeOffset ∧
+    i32_neg (u32_saturating_as_i32 (StyledSrc.PrimitiveStyle_inside_stroke_width p)) = (toPrimStyle p).fillOffset := by
+  rw [prim_outside_stroke_width_src_eq_model, prim_inside_stroke_width_src_eq_model]
+  exact ⟨rfl, rfl⟩
 
 end EG.C06.Src
